@@ -59,8 +59,9 @@ fn evaluate(prepared: &[Prepared], o: &Opts, skip: &BTreeSet<String>, before: &m
                 Some(mut t) => {
                     t.stats.evaluated += out.stats.evaluated;
                     t.stats.ok += out.stats.ok;
-                    t.stats.ok_zero_ext += out.stats.ok_zero_ext;
-                    t.stats.ok_sign_ext += out.stats.ok_sign_ext;
+                    // second pass = 32-bit pointer/length fed sign-extended in a 64-bit native type:
+                    // its high bits say nothing about the expression
+                    t.stats.ok += out.stats.ok_zero_ext + out.stats.ok_sign_ext;
                     t.stats.nan_payload += out.stats.nan_payload;
                     t.stats.unencodable += out.stats.unencodable;
                     for (k, v) in out.stats.bad {
@@ -221,7 +222,10 @@ fn main() {
     let scratch = PathBuf::from(args.str("scratch", &format!("/var/tmp/verif-exprsem-{}", std::process::id())));
     let _ = std::fs::create_dir_all(&scratch);
 
+    let t_start = std::time::Instant::now();
+    let mut timings: BTreeMap<String, f64> = BTreeMap::new();
     let ex = extract::run_all();
+    timings.insert("extract".into(), t_start.elapsed().as_secs_f64());
     for (b, w, e) in &ex.failures {
         rep.inconclusive(&format!("{b}: generator failed on world `{w}`: {e}"));
     }
@@ -245,6 +249,7 @@ fn main() {
         if o.replay.as_ref().map(|r| &r.0 != backend).unwrap_or(false) {
             continue;
         }
+        let t_b = std::time::Instant::now();
         let cx = backend_ctx(&ex, backend);
         type_table.insert(backend.clone(), json!({"declared": cx.types.declared, "core": cx.types.core}));
         for n in &cx.types.notes {
@@ -318,6 +323,7 @@ fn main() {
             let skip = BTreeSet::new();
             evaluate(&prepared, &o, &skip, &mut |_| {}, &mut |out| outcomes.push(out));
         }
+        timings.insert(backend.clone(), t_b.elapsed().as_secs_f64());
     }
     // temporaries of native backends
     for (ob, why) in &temps {
@@ -336,7 +342,12 @@ fn main() {
         let s = &oc.stats;
         rep.evals(s.evaluated);
         if s.evaluated > 0 {
-            rep.distinct(&oc.key);
+            // identity expressions (the operand passed through unchanged) are the trivial cases
+            if oc.template.trim() != VAR {
+                rep.distinct(&oc.key);
+            } else {
+                rep.count("identity_expressions_judged");
+            }
             judged.entry(oc.prepared_backend.clone()).or_default().insert(oc.inst.clone());
         } else {
             inconclusive.push((oc.prepared_backend.clone(), oc.inst.clone(), oc.template.clone(), format!("no input could be represented in the operand type ({} skipped)", s.unencodable)));
@@ -421,6 +432,7 @@ fn main() {
     rep.extra.insert("lenient_inputs".into(), json!(lenient));
     rep.extra.insert("trusted_base".into(), json!(trusted_base_all()));
     rep.extra.insert("cases".into(), json!(per_case));
+    rep.extra.insert("timings_s".into(), json!(timings));
     for oc in outcomes.iter().take(8) {
         rep.sample(json!({"backend": oc.prepared_backend, "instruction": oc.inst, "expression": oc.template, "profile": oc.profile, "domain": oc.domain, "evaluated": oc.stats.evaluated}));
     }
